@@ -276,7 +276,11 @@ impl RestartOracle {
 				},
 				M::H(HEvent::PersistUpdate { node, chan, update_id: Some(id), steps, .. }) => {
 					if steps.iter().any(|s| s.starts_with("LatestHolderCommitment")) {
-						self.holder_updates.entry((node, chan)).or_default().push(id);
+						// (an in-flight update replayed after a restart is handed over again under the same id)
+						let v = self.holder_updates.entry((node, chan)).or_default();
+						if !v.contains(&id) {
+							v.push(id);
+						}
 					}
 				},
 				M::S(SEvent::Ldk { node, ev }) => match &ev {
